@@ -270,8 +270,8 @@ func RunHistory(r *rand.Rand, cfg *HistoryConfig, d *Dict, tw *TraceWriter, next
 		ev := map[string]interface{}{"ev": "op", "base": segs(v.base), "name": op.Name, "sp": segs(op.Sp), "res": res}
 		if cfg.DiskPre {
 			ev["pre"] = true
-			ev["rootgone"] = b.RootGone()
 		}
+		ev["rootgone"] = b.RootGone()
 		if op.Sq != nil {
 			ev["sq"] = segs(op.Sq)
 		}
